@@ -440,6 +440,10 @@ pub fn replay_trace(prop: &str, trace: &Trace, scratch: &Scratch) -> Vec<Finding
         Trace::Recorder(t) => crate::recorder::replay(prop, t, scratch, &mut rec),
         Trace::Rules(t) => crate::rules::replay(prop, t, scratch, &mut rec),
         Trace::Bytes(t) => crate::crash::replay(prop, t, &mut rec),
+        Trace::Seq(ts) if ts.iter().all(|t| matches!(t, Trace::Ceremony(_))) => {
+            let cs: Vec<&crate::ceremony::CeremonyTrace> = ts.iter().filter_map(|t| if let Trace::Ceremony(c) = t { Some(c) } else { None }).collect();
+            crate::ceremony::replay_seq(prop, &cs, &mut rec)
+        }
         Trace::Seq(ts) => {
             let mut last = vec![];
             for (i, t) in ts.iter().enumerate() {
